@@ -9,6 +9,7 @@ Each rewrite preserves the order of evaluation of everything that can have an ef
 evaluated at its new position and nothing is evaluated between the old and the new position).  With them a condition has one form
 whether or not it was given a name, and a dispatch has one form whether it is written as an if-chain or as a loop over a table."""
 import ast
+import copy
 
 
 
@@ -139,6 +140,173 @@ class ConstFold(ast.NodeTransformer):
 
     def visit_Lambda(self, node):
         return node
+
+
+class SplitTupleAssign(ast.NodeTransformer):
+    """`a, b = (E1, E2)` with distinct plain names on the left, none of them read on the right (nor in a nested function), outside of
+    try blocks  ->  `a = E1; b = E2`.  The pair form and the two statement form bind the same values in the same evaluation order."""
+
+    def visit_FunctionDef(self, fn):
+        self.generic_visit(fn)
+        captured = set()
+        for sub in ast.walk(fn):
+            if sub is not fn and isinstance(sub, (ast.FunctionDef, ast.AsyncFunctionDef, ast.Lambda, ast.ClassDef)):
+                captured |= {x.id for x in ast.walk(sub) if isinstance(x, ast.Name)}
+
+        def split(st):
+            if not (isinstance(st, ast.Assign) and len(st.targets) == 1 and isinstance(st.targets[0], ast.Tuple) and isinstance(st.value, ast.Tuple)):
+                return [st]
+            tg, v = st.targets[0], st.value
+            if len(tg.elts) != len(v.elts) or not all(isinstance(e, ast.Name) for e in tg.elts) or any(isinstance(e, ast.Starred) for e in v.elts):
+                return [st]
+            names = [e.id for e in tg.elts]
+            if len(set(names)) != len(names) or set(names) & captured:
+                return [st]
+            if set(names) & {x.id for x in ast.walk(v) if isinstance(x, ast.Name)}:
+                return [st]
+            if any(isinstance(x, (ast.NamedExpr, ast.Yield, ast.YieldFrom, ast.Await)) for x in ast.walk(v)):
+                return [st]
+            return [ast.copy_location(ast.Assign(targets=[t], value=e), st) for t, e in zip(tg.elts, v.elts)]
+
+        def rec(node, in_try):
+            for fld in ('body', 'orelse', 'finalbody'):
+                blk = getattr(node, fld, None)
+                if isinstance(blk, list) and blk and isinstance(blk[0], ast.stmt):
+                    out = []
+                    for st in blk:
+                        if isinstance(st, (ast.FunctionDef, ast.AsyncFunctionDef, ast.ClassDef)):
+                            out.append(st)
+                            continue
+                        rec(st, in_try or isinstance(st, ast.Try))
+                        out.extend([st] if in_try or isinstance(node, ast.Try) else split(st))
+                    setattr(node, fld, out)
+            for h in getattr(node, 'handlers', []) or []:
+                rec(h, True)
+        rec(fn, False)
+        return fn
+
+    visit_AsyncFunctionDef = visit_FunctionDef
+
+
+class CopyProp(ast.NodeTransformer):
+    """`t = s` / `t1, t2 = (s1, s2)` with plain names on both sides, t bound once in the function, s a parameter or local whose stores
+    all come before the copy (in the lowest block that holds both): t is another name for s.  The reads of t are rewritten to s and
+    the copy goes away.  An inlined helper that unpacked its tuple parameter (`x0, y0, x1, y1 = bbox`) reads the caller's names again."""
+
+    def visit_FunctionDef(self, fn):
+        self.generic_visit(fn)
+        params = {a.arg for a in ast.walk(fn.args) if isinstance(a, ast.arg)}
+        while True:
+            plain, other = {}, {}
+            chain = {}
+
+            def scan(node, path):
+                for fld in ('body', 'orelse', 'finalbody', 'handlers'):
+                    blk = getattr(node, fld, None)
+                    if not isinstance(blk, list):
+                        continue
+                    for i, st in enumerate(blk):
+                        if isinstance(st, ast.ExceptHandler):
+                            if st.name:
+                                other[st.name] = other.get(st.name, 0) + 1
+                            scan(st, path + [(id(blk), i)])
+                            continue
+                        if not isinstance(st, ast.stmt):
+                            continue
+                        here = path + [(id(blk), i)]
+                        chain[id(st)] = here
+                        if isinstance(st, (ast.FunctionDef, ast.AsyncFunctionDef, ast.ClassDef)):
+                            other[st.name] = other.get(st.name, 0) + 1
+                            for x in ast.walk(st):
+                                if isinstance(x, ast.Name) and isinstance(x.ctx, (ast.Store, ast.Del)) or isinstance(x, (ast.Global, ast.Nonlocal)):
+                                    for nm in ([x.id] if isinstance(x, ast.Name) else x.names):
+                                        other[nm] = other.get(nm, 0) + 1      # may be a nonlocal of ours: keep away
+                            continue
+                        own = [st.targets] if isinstance(st, ast.Assign) else [[st.target]] if isinstance(st, (ast.AugAssign, ast.AnnAssign)) else []
+                        own_ids = set()
+                        for tg in (own[0] if own else []):
+                            for x in ast.walk(tg):
+                                if isinstance(x, ast.Name) and isinstance(x.ctx, ast.Store):
+                                    plain.setdefault(x.id, []).append(here)
+                                    own_ids.add(id(x))
+                        hdr = [c for f, c in ast.iter_fields(st) if f not in ('body', 'orelse', 'finalbody', 'handlers')]
+                        for c in hdr:
+                            for c1 in (c if isinstance(c, list) else [c]):
+                                if isinstance(c1, ast.AST):
+                                    for x in ast.walk(c1):
+                                        if isinstance(x, ast.Name) and isinstance(x.ctx, (ast.Store, ast.Del)) and id(x) not in own_ids:
+                                            other[x.id] = other.get(x.id, 0) + 1
+                                        elif isinstance(x, (ast.Global, ast.Nonlocal)):
+                                            for nm in x.names:
+                                                other[nm] = other.get(nm, 0) + 1
+                                        elif isinstance(x, ast.alias):
+                                            nm = (x.asname or x.name).split('.')[0]
+                                            other[nm] = other.get(nm, 0) + 1
+                        scan(st, here)
+            scan(fn, [])
+
+            def before(a, b):
+                """path a lies before path b in their lowest common block"""
+                for (ba, ia), (bb, ib) in zip(a, b):
+                    if ba != bb:
+                        return False
+                    if ia != ib:
+                        return ia < ib
+                return False
+
+            def ok(t, s_, here):
+                if not (isinstance(t, ast.Name) and isinstance(s_, ast.Name)) or t.id == s_.id:
+                    return False
+                if t.id in params or other.get(t.id) or len(plain.get(t.id, [])) != 1:
+                    return False
+                if other.get(s_.id) or not (s_.id in params or plain.get(s_.id)):
+                    return False
+                return all(before(p, here) for p in plain.get(s_.id, []))
+
+            found = None
+            for st in ast.walk(fn):
+                if not isinstance(st, ast.Assign) or len(st.targets) != 1 or id(st) not in chain:
+                    continue
+                here = chain[id(st)]
+                tg, v = st.targets[0], st.value
+                if isinstance(tg, ast.Name) and ok(tg, v, here):
+                    found = (st, [(tg.id, v.id)], None)
+                    break
+                if isinstance(tg, ast.Tuple) and isinstance(v, ast.Tuple) and len(tg.elts) == len(v.elts) and \
+                        all(isinstance(e, ast.Name) for e in list(tg.elts) + list(v.elts)) and len({e.id for e in tg.elts}) == len(tg.elts) and \
+                        not ({e.id for e in tg.elts} & {e.id for e in v.elts}):
+                    pairs = [(a.id, b.id) for a, b in zip(tg.elts, v.elts) if ok(a, b, here)]
+                    if pairs:
+                        rest = [(a, b) for a, b in zip(tg.elts, v.elts) if (a.id, b.id) not in pairs]
+                        found = (st, pairs, rest)
+                        break
+            if found is None:
+                break
+            st, pairs, rest = found
+            ren = dict(pairs)
+            for x in ast.walk(fn):
+                if isinstance(x, ast.Name) and isinstance(x.ctx, ast.Load) and x.id in ren:
+                    x.id = ren[x.id]
+            if rest:
+                if len(rest) == 1:
+                    st.targets, st.value = [rest[0][0]], rest[0][1]
+                else:
+                    st.targets[0].elts = [a for a, _ in rest]
+                    st.value.elts = [b for _, b in rest]
+            else:
+                _remove_stmt(fn, st)
+        return fn
+
+    visit_AsyncFunctionDef = visit_FunctionDef
+
+
+def _remove_stmt(root, st):
+    for node in ast.walk(root):
+        for fld in ('body', 'orelse', 'finalbody'):
+            blk = getattr(node, fld, None)
+            if isinstance(blk, list) and any(x is st for x in blk):
+                blk[:] = [x for x in blk if x is not st] or [ast.copy_location(ast.Pass(), st)]
+                return
 
 
 class JoinNestedIf(ast.NodeTransformer):
@@ -913,9 +1081,19 @@ def inline_new_constants(tree, rel):
             for nm in n.names:
                 count[nm] = count.get(nm, 0) + 5
     consts = {}
+
+    def scalar(v):
+        return isinstance(v, ast.Constant) and isinstance(v.value, (int, float, str, bytes))
+
+    def immutable_literal(v):
+        if scalar(v):
+            return True
+        if isinstance(v, ast.UnaryOp) and isinstance(v.op, (ast.USub, ast.UAdd)) and scalar(v.operand) and not isinstance(v.operand.value, (str, bytes)):
+            return True
+        return isinstance(v, ast.Tuple) and all(immutable_literal(e) for e in v.elts)       # DEFAULT_SIZE = (256, 256)
     for st in tree.body:
-        if isinstance(st, ast.Assign) and len(st.targets) == 1 and isinstance(st.targets[0], ast.Name) and isinstance(st.value, ast.Constant) and \
-                isinstance(st.value.value, (int, float, str, bytes)) and count.get(st.targets[0].id) == 1 and \
+        if isinstance(st, ast.Assign) and len(st.targets) == 1 and isinstance(st.targets[0], ast.Name) and immutable_literal(st.value) and \
+                count.get(st.targets[0].id) == 1 and \
                 '%s:=%s' % (rel, st.targets[0].id) not in known:
             consts[st.targets[0].id] = st.value
         elif isinstance(st, ast.Assign) and len(st.targets) == 1 and isinstance(st.targets[0], ast.Tuple) and isinstance(st.value, ast.Tuple) and \
@@ -933,7 +1111,10 @@ def inline_new_constants(tree, rel):
 
         def visit_Name(self, n):
             if isinstance(n.ctx, ast.Load) and n.id in consts and n.id not in self.shadow:
-                return ast.copy_location(ast.Constant(value=consts[n.id].value), n)
+                new = copy.deepcopy(consts[n.id])
+                for x in ast.walk(new):
+                    ast.copy_location(x, n)
+                return new
             return n
 
         def _fn(self, n):
@@ -982,6 +1163,8 @@ def simplify_tree(tree):
     tree = ToAug().visit(tree)
     tree = CounterInduction().visit(tree)
     tree = FlagThread().visit(tree)
+    tree = SplitTupleAssign().visit(tree)
+    tree = CopyProp().visit(tree)
     tree = JoinNestedIf().visit(tree)
     tree = _DoubleNot().visit(tree)
     tree = _InlineTemps().visit(tree)
